@@ -971,3 +971,19 @@ func blockInCycle(b *ssa.BasicBlock) bool {
 	}
 	return walk(b)
 }
+
+// lookupField finds a field or method of t by name; specifications may name unexported members of types declared
+// in other packages (the lookup is retried from the declaring package).
+func lookupField(t types.Type, pkg *types.Package, name string) (types.Object, []int, bool) {
+	obj, path, ind := types.LookupFieldOrMethod(t, true, pkg, name)
+	if obj == nil {
+		bt := t
+		if d := deref(t); d != nil {
+			bt = d
+		}
+		if n, ok := types.Unalias(bt).(*types.Named); ok && n.Obj().Pkg() != nil {
+			obj, path, ind = types.LookupFieldOrMethod(t, true, n.Obj().Pkg(), name)
+		}
+	}
+	return obj, path, ind
+}
